@@ -27,6 +27,8 @@ def h16_handle(S, script_len=3, dependency=False):
     S.tag("category", cat)
     S.tag("handle", "MessageDependency" if dependency else "Message")
     S.note("script", script)
+    # the broker may fail the first call that reaches it (connection hiccup): the handle then stays as it was
+    broker_hiccup = (not dependency) and S.flag("first_broker_call_fails")
     log = []
 
     async def fn():
@@ -40,6 +42,17 @@ def h16_handle(S, script_len=3, dependency=False):
         key = RoutingKey(topic="job", queue="default", id_="m1")
         params = P.Parameters(retries=P.RetriesProperties(max_amount=N, already_tried=k), timestamp=P.datetime.now())
         w.broker.queues["default"].processing.add(MemMessage(key, "pl", params))
+        if broker_hiccup:
+            state = {"failed": False}
+            for name in ("ack", "nack", "reject", "requeue"):
+                def mk(orig):
+                    async def flaky(*a, **k):
+                        if not state["failed"]:
+                            state["failed"] = True
+                            raise ConnectionError("broker unreachable")
+                        return await orig(*a, **k)
+                    return flaky
+                setattr(w.broker, name, mk(getattr(w.broker, name)))
         rec = Recorder(w.broker)
         if dependency:
             m = MessageDependency.construct_as_dependency(context=ResolverContext(
@@ -54,6 +67,8 @@ def h16_handle(S, script_len=3, dependency=False):
                 outcome = "returned"
             except ValueError as e:
                 outcome = "refused"
+            except ConnectionError:
+                outcome = "broker-error"
             except _NoAction:
                 outcome = "noaction"
             log.append((c, outcome, [x["op"] for x in rec.calls[before:]], m.read_only))
@@ -64,6 +79,11 @@ def h16_handle(S, script_len=3, dependency=False):
     for c, outcome, ops, ro in log:
         wrong_cat = c in ("nack", "retry", "force_retry") and cat != "NORMAL"
         no_budget = c == "retry" and not bool(k < N)
+        if outcome == "broker-error":
+            # the action did not happen: the message is still held, the handle still usable, its retry state as it was
+            S.cover("broker-error")
+            S.check("failed-broker-call-leaves-the-handle-usable", ro is False and not used, info=f"{script}: after a failed {c} read_only={ro}")
+            continue
         if wrong_cat or used or no_budget:
             S.cover("refused")
             S.check("refused-call-raises", outcome == "refused", info=f"{script} on {cat}: {c} -> {outcome}")
